@@ -639,7 +639,9 @@ export class Service {
         console.log(item, 42, 0x1f, 10n);
       }
     }
-    const data = fetchData(items);
+    const data = fetchData(items)
+      .filter((x) => x.length > 3)
+      .map((x) => x.trim());
     this.save(data);
     return out;
   }
@@ -657,6 +659,9 @@ async fn load(paths: Vec<String>) -> String {
         let copy = text.clone();
         out.push_str(&copy.clone().clone());
         let n: i32 = "42".parse().expect("number");
+        let size = fs::read_to_string(p)
+            .map(|s| s.len())
+            .unwrap();
         if n > 1000 { std::thread::sleep(std::time::Duration::from_secs(5)); }
     }
     out
